@@ -398,8 +398,10 @@ impl DiskCache {
             // item simultaneously.
             if item != cache_item {
                 overlapping_item_paths.insert(self.item_path(key, &item)?);
-                total_bytes_rm += item.len;
             }
+            // The item leaves the state either way (it is re-added below when equal), so its bytes
+            // always have to be subtracted.
+            total_bytes_rm += item.len;
         }
         state.num_items -= num_items_rm;
         state.total_bytes -= total_bytes_rm;
